@@ -172,6 +172,9 @@ VOP(dsl_eval)
 
 // dsl_hostile src=<hex> mode=main|thread|coro  -- arbitrary bytes to the real parser/evaluator:
 // any value or script error is fine ("hostile ok"); a crash kills the process (CRASH line from the runner)
+// outcome class of the last hostile run (value / error / syntax), reported only when the script line asks for it (want=...)
+static std::string l_HostileKind;
+
 static std::string HostileRun(const std::string& src)
 {
 	try {
@@ -179,9 +182,11 @@ static std::string HostileRun(const std::string& src)
 		std::set<String> before = GlobalKeys();
 		std::unique_ptr<Expression> expr = ConfigCompiler::CompileText("<c15h>", src);
 		std::string r = "hostile ok";
+		l_HostileKind = (expr && dynamic_cast<ThrowExpression *>(expr.get())) ? "syntax" : "value";
 		try {
 			if (expr) expr->Evaluate(frame);
 		} catch (const std::exception&) {
+			if (l_HostileKind != "syntax") l_HostileKind = "error";
 		}
 		Namespace::Ptr g = ScriptGlobal::GetGlobals();
 		std::vector<String> added;
@@ -217,6 +222,7 @@ VOP(dsl_hostile)
 		if (pid == 0) {
 			close(fds[0]);
 			std::string r = HostileDispatch(src, mode);
+			if (a.has("want")) r = "hostile " + l_HostileKind;
 			ssize_t w = write(fds[1], r.data(), r.size());
 			(void)w;
 			_exit(0);
@@ -236,7 +242,9 @@ VOP(dsl_hostile)
 		else Out(got.empty() ? "CRASH child exit=" + std::to_string(WEXITSTATUS(status)) : got);
 		return;
 	}
-	Out(HostileDispatch(src, mode));
+	std::string r = HostileDispatch(src, mode);
+	if (a.has("want")) r = "hostile " + l_HostileKind;
+	Out(r);
 }
 
 static std::string HostileDispatch(const std::string& src, const std::string& mode)
